@@ -36,6 +36,7 @@ func init() {
 			ruleLatestWinsArgmax(r)
 			ruleHeapShape(r)
 			ruleSentinelForm(r, "pq", "sstables")
+			ruleSentinelProducible(r, "sstables", "pq")
 		})
 	register("C01",
 		"Static necessary conditions of map equivalence across flushes, compactions and restarts: age-encoding names are fixed-width and every listing is sorted before use; the rotation hands the old write store to the flusher, keeps it as read store and installs a fresh write store; a flushed table is visible before the flush reports success; merged readers are always built from the oldest-first list; lock order and hand-off discipline admit no deadlock (E-LOCK); compaction may drop tombstones only when anchored at the oldest table, uses the flood-filled selection, age-ordered merge contexts and the oldest input's slot. Decides these shapes on all paths; the equivalence itself (over operation sequences and schedules) is not decided.",
@@ -49,6 +50,7 @@ func init() {
 			ruleReaderPath(r)
 			ruleCtxAge(r, []string{"simpledb.executeCompaction", "sstables.SuperSSTableReader.Scan", "sstables.SuperSSTableReader.ScanStartingAt", "sstables.SuperSSTableReader.ScanRange"})
 			ruleGetPrecedence(r)
+			ruleSentinelProducible(r, "simpledb", "sstables", "memstore")
 			ruleNewestFirst(r)
 			ruleApplyBeforeRotate(r)
 			ruleTableBeforeWalRemove(r)
